@@ -48,6 +48,7 @@ type Fake struct {
 
 	// Canceled: invoices (payment hash) reported CANCELED (lapsed unpaid)
 	Canceled map[string]bool
+	pendSeq  int
 }
 
 func (f *Fake) node() *lnmodel.Node {
@@ -322,6 +323,14 @@ func (s *routerSrv) TrackPaymentV2(in *routerrpc.TrackPaymentRequest, stream rou
 		if in.NoInflightUpdates {
 			// only the final update is wanted: the call blocks until the caller gives up
 			return deadline()
+		}
+		// the current state first: registered without an attempt yet (INITIATED) or with HTLCs out
+		s.f.mu.Lock()
+		s.f.pendSeq++
+		initiated := s.f.pendSeq%2 == 1
+		s.f.mu.Unlock()
+		if initiated {
+			return stream.Send(&lnrpc.Payment{PaymentHash: hash, Status: lnrpc.Payment_INITIATED})
 		}
 		return stream.Send(&lnrpc.Payment{PaymentHash: hash, Status: lnrpc.Payment_IN_FLIGHT})
 	default:
